@@ -287,7 +287,8 @@ def rot_specs(tier):
 
 # 90.4 / -0.2 / 179.55 deg: close to, but not, a quarter turn
 BASE_ROT = [[30.0, 'deg'], [90.0, 'deg'], [-123.4, 'deg'], [725.0, 'deg'], [1.0, 'rad'], [0.5, 'hourangle'], [90.4, 'deg'], [-0.2, 'deg'],
-            [179.55, 'deg'], [0.0, 'deg'], [-0.0, 'rad']]       # the null rotation is a rotation like any other: a new, independent region
+            [179.55, 'deg'], [0.0, 'deg'], [-0.0, 'rad'],
+            [4000.0, 'arcmin'], [-500.0, 'rad']]      # numeric values beyond 360 in units other than degrees       # the null rotation is a rotation like any other: a new, independent region
 
 
 def rot_angles(tier, seed):
@@ -573,6 +574,12 @@ def check_rot(res, spec, pv, ang):
     except Exception as exc:
         cx.bad('build_failed', f'could not construct region: {type(exc).__name__}: {exc}')
         return
+    # metadata with nested mutable values (a tag list, a dash pattern): they travel with the region and stay its own
+    try:
+        reg.meta['tag'] = ['t1', 't2']
+        reg.visual['dashes'] = [8, 3]
+    except Exception:      # noqa: BLE001
+        pass
     f0 = fp(reg)
     arg_c, arg_a = PixCoord(pcx, pcy), G._angle_obj(ang)
     fa0 = [fp(arg_c), fp(arg_a)]
@@ -722,6 +729,10 @@ def _edit_in_place(r, depth=0):
                 v[...] = v + 7.0 * v.unit
             except Exception:      # noqa: BLE001
                 pass
+    for d in (r.meta, r.visual):
+        for v in d.values():
+            if isinstance(v, list):
+                v.append('appended in place')
     r.meta['text'] = 'edited in place'
     r.visual['color'] = 'edited'
 
